@@ -6,6 +6,9 @@ import (
 	"go/token"
 
 	"golang.org/x/tools/go/ssa"
+
+	"verif/internal/engine/bits"
+	"verif/internal/ir"
 )
 
 const ruleT1 = "T1-type-tables"
@@ -50,11 +53,76 @@ func constsOf(fn *ssa.Function, op token.Token) []int64 {
 	return out
 }
 
+// isFlagsAddr: addr denotes the CONNECT flags byte (field connectFlags) or the first
+// byte of the fixed header (mtypeflags[0]).
+func isFlagsAddr(addr ssa.Value) bool {
+	p := ir.PathOf(addr)
+	n := len(p.Fields)
+	if n >= 1 && p.Fields[n-1] == "connectFlags" {
+		return true
+	}
+	if n >= 2 && p.Fields[n-1] == "[]" && p.Fields[n-2] == "mtypeflags" {
+		if ia, ok := ir.SeeThrough(addr).(*ssa.IndexAddr); ok {
+			if k, ok := ia.Index.(*ssa.Const); ok && k.Value != nil && k.Value.ExactString() == "0" {
+				return true
+			}
+		}
+	}
+	return false
+}
+
+func bitStr(b bits.Bit) string {
+	switch b.K {
+	case bits.Zero:
+		return "0"
+	case bits.One:
+		return "1"
+	case bits.Old:
+		return fmt.Sprintf("old%d", b.Idx)
+	case bits.Arg:
+		return fmt.Sprintf("arg%d", b.Idx)
+	}
+	return "?"
+}
+
+// branchOfBoolParam: is block b only reachable through the true (1) / false (0) edge of an
+// `if param` test? -1 when it is not controlled by such a test.
+func branchOfBoolParam(b *ssa.BasicBlock, param ssa.Value) int {
+	for x := b; x != nil; x = x.Idom() {
+		id := x.Idom()
+		if id == nil {
+			break
+		}
+		iff, ok := id.Instrs[len(id.Instrs)-1].(*ssa.If)
+		if !ok {
+			continue
+		}
+		cond := iff.Cond
+		neg := false
+		if u, ok := cond.(*ssa.UnOp); ok && u.Op == token.NOT {
+			cond, neg = u.X, true
+		}
+		if cond != param {
+			continue
+		}
+		for e := 0; e < 2; e++ {
+			if id.Succs[e] == x && len(x.Preds) == 1 {
+				pol := 1 - e
+				if neg {
+					pol = 1 - pol
+				}
+				return pol
+			}
+		}
+	}
+	return -1
+}
+
 // flagBitTables: getters and setters of the CONNECT flags byte and of the PUBLISH
 // flags agree with each other and with the MQTT bit layout; a setter touches only
-// its own bits (plus the listed dependents).
+// its own bits (plus the listed dependents). Decided in the known-bits domain.
 func (c *Ctx) flagBitTables() {
-	c.R.Rule(ruleT1, "tables agree: the flag getters read exactly the bits MQTT 3.1.1 assigns to the field, and each flag setter sets exactly those bits and clears only those bits (SetWillFlag may also clear will QoS / will retain); type tables cover the same 14 packet types; constants have their spec values.")
+	c.R.Rule(ruleT1, "tables agree: evaluated in a known-bits domain (each bit is 0, 1, a copy of a bit of the old flags byte, a copy of a bit of the argument, or unknown), the flag getters read exactly the bits MQTT 3.1.1 assigns to the field, and each flag setter stores a byte whose own bits are the argument and whose other bits are copies of the old bits (SetWillFlag(false) may also clear will QoS / will retain; a multi-bit setter is judged for arguments that fit the field, which the setters validate first); type tables cover the same 14 packet types; constants have their spec values.")
 	n := 0
 	for _, fs := range flagTable {
 		g := c.P.Func("message", fs.typ, fs.getter)
@@ -65,47 +133,176 @@ func (c *Ctx) flagBitTables() {
 		}
 		n++
 		own := fs.width << fs.shift
-		// getter: (x >> shift) & width
-		shr := constsOf(g, token.SHR)
-		and := constsOf(g, token.AND)
-		gok := false
-		switch {
-		case fs.shift == 0 && len(shr) == 0 && len(and) == 1 && and[0] == fs.width:
-			gok = true
-		case len(shr) == 1 && shr[0] == fs.shift && len(and) == 1 && and[0] == fs.width:
-			gok = true
+		nbits := 1
+		if fs.width == 3 {
+			nbits = 2
 		}
-		c.R.Check(gok, ruleT1, fmt.Sprintf("%s.%s:reads-bits(%#x)", fs.typ, fs.getter, own), c.P.Pos(g.Pos()), fmt.Sprintf("(flags >> %d) & %d", fs.shift, fs.width),
-			fmt.Sprintf("%s.%s does not read (flags >> %d) & %d (found shifts %v, masks %v): the field is taken from the wrong bits", fs.typ, fs.getter, fs.shift, fs.width, shr, and))
-		// setter
-		ors := constsOf(s, token.OR)
-		ands := constsOf(s, token.AND)
-		shl := constsOf(s, token.SHL)
-		var bad []string
-		if fs.width == 1 {
-			if len(ors) != 1 || ors[0] != own {
-				bad = append(bad, fmt.Sprintf("sets bits %v, expected %#x", ors, own))
-			}
+		// ---- getter
+		gkey := fmt.Sprintf("%s.%s:reads-bits(%#x)", fs.typ, fs.getter, own)
+		env := &bits.Env{IsFlags: isFlagsAddr}
+		var gbad, gunk []string
+		rets := ir.Returns(g)
+		if len(rets) != 1 || len(rets[0].Results) != 1 {
+			gunk = append(gunk, "getter does not have a single return expression")
 		} else {
-			if len(shl) != 1 || shl[0] != fs.shift {
-				bad = append(bad, fmt.Sprintf("shifts the value by %v, expected %d", shl, fs.shift))
+			res := ir.ReturnOperand(rets[0], 0)
+			if nbits == 1 {
+				gbad, gunk = judgeBoolGetter(env, res, int(fs.shift))
+			} else {
+				v := env.Eval(res)
+				for i := 0; i < bits.Width; i++ {
+					want := bits.Bit{K: bits.Zero}
+					if i < nbits {
+						want = bits.Bit{K: bits.Old, Idx: int(fs.shift) + i}
+					}
+					if v[i] == want {
+						continue
+					}
+					if v[i].K == bits.Top {
+						gunk = append(gunk, fmt.Sprintf("result bit %d is not determined", i))
+					} else {
+						gbad = append(gbad, fmt.Sprintf("result bit %d is %s, expected %s", i, bitStr(v[i]), bitStr(want)))
+					}
+				}
 			}
 		}
-		// the clearing mask: the AND constant that is not the value range test
-		cleared := int64(-1)
-		for _, a := range ands {
-			cl := ^a & 0xff
-			if cl&own == own {
-				cleared = cl
+		switch {
+		case len(gbad) > 0:
+			c.R.Bad(ruleT1, gkey, c.P.Pos(g.Pos()), fs.typ+"."+fs.getter+": "+joinStr(gbad, "; ")+": the field is taken from the wrong bits")
+		case len(gunk) > 0:
+			c.R.Unknown(ruleT1, gkey, c.P.Pos(g.Pos()), fs.typ+"."+fs.getter+": "+joinStr(gunk, "; "))
+		default:
+			c.R.Ok(ruleT1, gkey, c.P.Pos(g.Pos()), fmt.Sprintf("reads exactly bit(s) %#x of the flags byte", own))
+		}
+		// ---- setter
+		skey := fmt.Sprintf("%s.%s:writes-only-bits(%#x)", fs.typ, fs.setter, own)
+		var param ssa.Value
+		if len(s.Params) >= 2 {
+			param = s.Params[1]
+		}
+		var sbad, sunk []string
+		seenPol := map[int]bool{}
+		stores := 0
+		for _, b := range s.Blocks {
+			for _, in := range b.Instrs {
+				st, ok := in.(*ssa.Store)
+				if !ok || !isFlagsAddr(st.Addr) {
+					continue
+				}
+				stores++
+				senv := &bits.Env{IsFlags: isFlagsAddr}
+				pol := -1
+				if nbits == 1 {
+					pol = branchOfBoolParam(b, param)
+					if pol < 0 {
+						sunk = append(sunk, "a store to the flags byte is not controlled by a test of the boolean argument")
+						continue
+					}
+					seenPol[pol] = true
+				} else {
+					senv.Param, senv.ParamBits = param, nbits
+				}
+				v := senv.Eval(st.Val)
+				for i := 0; i < 8; i++ {
+					var want []bits.Bit
+					inOwn := own>>uint(i)&1 == 1
+					switch {
+					case inOwn && nbits == 1 && pol == 1:
+						want = []bits.Bit{{K: bits.One}}
+					case inOwn && nbits == 1 && pol == 0:
+						want = []bits.Bit{{K: bits.Zero}}
+					case inOwn:
+						want = []bits.Bit{{K: bits.Arg, Idx: i - int(fs.shift)}}
+					default:
+						want = []bits.Bit{{K: bits.Old, Idx: i}}
+						if fs.deps>>uint(i)&1 == 1 && pol == 0 {
+							want = append(want, bits.Bit{K: bits.Zero})
+						}
+					}
+					okBit := false
+					for _, w := range want {
+						if v[i] == w {
+							okBit = true
+						}
+					}
+					if okBit {
+						continue
+					}
+					if v[i].K == bits.Top {
+						sunk = append(sunk, fmt.Sprintf("stored bit %d is not determined", i))
+					} else {
+						sbad = append(sbad, fmt.Sprintf("stored bit %d is %s, expected %s", i, bitStr(v[i]), bitStr(want[0])))
+					}
+				}
 			}
 		}
-		if cleared < 0 {
-			bad = append(bad, fmt.Sprintf("no mask that clears the field's bits %#x (masks %v)", own, ands))
-		} else if cleared&^(own|fs.deps) != 0 {
-			bad = append(bad, fmt.Sprintf("clears bits %#x that belong to other fields (own bits %#x)", cleared&^(own|fs.deps), own))
+		if stores == 0 {
+			sbad = append(sbad, "no store to the flags byte")
 		}
-		c.R.Check(len(bad) == 0, ruleT1, fmt.Sprintf("%s.%s:writes-only-bits(%#x)", fs.typ, fs.setter, own), c.P.Pos(s.Pos()), "sets/clears exactly its own bits", fs.typ+"."+fs.setter+" "+joinStr(bad, "; ")+": changing this flag corrupts another field of the flags byte")
+		if nbits == 1 && stores > 0 && len(sunk) == 0 && (!seenPol[0] || !seenPol[1]) {
+			sbad = append(sbad, "the flag is not both set (true) and cleared (false)")
+		}
+		switch {
+		case len(sbad) > 0:
+			c.R.Bad(ruleT1, skey, c.P.Pos(s.Pos()), fs.typ+"."+fs.setter+" "+joinStr(sbad, "; ")+": changing this flag corrupts another field of the flags byte (or does not change its own)")
+		case len(sunk) > 0:
+			c.R.Unknown(ruleT1, skey, c.P.Pos(s.Pos()), fs.typ+"."+fs.setter+": "+joinStr(sunk, "; "))
+		default:
+			c.R.Ok(ruleT1, skey, c.P.Pos(s.Pos()), "sets/clears exactly its own bits, all other bits are copies of the old byte")
+		}
 	}
 	c.R.Count("flag getter/setter pairs", n)
 	c.R.Floor("flag getter/setter pairs", n, 9)
+}
+
+// judgeBoolGetter: the returned condition is equivalent to "bit `shift` of the flags byte is set".
+func judgeBoolGetter(env *bits.Env, res ssa.Value, shift int) (bad, unk []string) {
+	bo, ok := res.(*ssa.BinOp)
+	if !ok || (bo.Op != token.EQL && bo.Op != token.NEQ) {
+		return nil, []string{"the getter does not return a comparison of masked flags with a constant"}
+	}
+	x, y := bo.X, bo.Y
+	if _, isC := x.(*ssa.Const); isC {
+		x, y = y, x
+	}
+	k, ok := y.(*ssa.Const)
+	if !ok || k.Value == nil {
+		return nil, []string{"the getter does not compare with a constant"}
+	}
+	kv, _ := constant.Uint64Val(k.Value)
+	v := env.Eval(x)
+	symPos := 0
+	for i := 0; i < bits.Width; i++ {
+		kb := kv>>uint(i)&1 == 1
+		switch v[i].K {
+		case bits.Top:
+			unk = append(unk, fmt.Sprintf("compared bit %d is not determined", i))
+		case bits.Old:
+			if v[i].Idx != shift {
+				bad = append(bad, fmt.Sprintf("tests bit %d of the flags byte, expected bit %d", v[i].Idx, shift))
+			}
+			symPos++
+			// "== c": need c's bit 1 at this position; "!= c": need c's bit 0 (x != 0 form)
+			if (bo.Op == token.EQL) != kb {
+				bad = append(bad, "the comparison is true when the flag bit is clear")
+			}
+		case bits.Zero, bits.One:
+			if (v[i].K == bits.One) != kb {
+				if bo.Op == token.EQL {
+					bad = append(bad, "the comparison can never be true")
+				} else {
+					bad = append(bad, "the comparison is always true")
+				}
+			}
+		case bits.Arg:
+			unk = append(unk, "argument bits in a getter")
+		}
+	}
+	if symPos == 0 && len(unk) == 0 {
+		bad = append(bad, "does not depend on the flags byte")
+	}
+	if symPos > 1 && bo.Op == token.NEQ {
+		// (x & m) != 0 with several copies of the same bit is still that bit
+	}
+	return
 }
